@@ -86,7 +86,7 @@ Fixpoint rtb_loop (fuel : nat) (data sb : bytes) (start progress : nat) : rtb :=
     else
       let remaining := skipn progress data in
       match index_of sb remaining with
-      | None => RData progress dataLen false dataLen          (* return remaining, false *)
+      | None => RData start dataLen false dataLen             (* return s.data[searchStart:], false  (C12-fix-3) *)
       | Some index =>
         match prev_linebreak data progress (progress + index) with
         | Some prev =>
